@@ -218,7 +218,15 @@ func (b *defaultBinder) bindTagWithValidate(req *protocol.Request, v interface{}
 	}
 	rt := dereferPointer(rv)
 	if rt.Kind() != reflect.Struct {
-		return b.bindNonStruct(req, v)
+		if err := b.bindNonStruct(req, v); err != nil {
+			return err
+		}
+		// the elements of a slice, array or map receiver may be structs with rules
+		switch rt.Kind() {
+		case reflect.Slice, reflect.Array, reflect.Map:
+			return b.config.Validator.ValidateStruct(v)
+		}
+		return nil
 	}
 
 	err := b.preBindBody(req, v)
